@@ -209,3 +209,49 @@ Proof.
   intros pick e Hp. destruct (Hp [e]) as (u & d & E & [Hin|[]] & _); [discriminate|].
   subst e. exact E.
 Qed.
+
+Theorem landmark_fib_wrong :
+    exists nbrs w N K lm,
+      wf_graph nbrs N K /\ nonneg_w nbrs w /\ Forall (fun v => (v < N)%nat) lm /\
+      NoDup lm /\ (length lm <= N)%nat /\
+      forall pick, pick_ok pick ->
+        exists m, landmark_matrix FIB nbrs w pick N lm = DOk m /\
+                  m <> sp_landmarks nbrs w N lm.
+Proof.
+  exists f4_nbrs, f4_w, 3%nat, 1%nat, f4_lm.
+  split; [exact f4_wf|]. split; [exact f4_nonneg|].
+  split; [repeat constructor|].
+  split; [repeat constructor; cbn; intuition discriminate|].
+  split; [cbn; lia|].
+  intros pick Hp. exists [[Some 2; None; Some 0]; [Some 0; Some 1; None]]. split.
+  - unfold landmark_matrix, f4_nbrs, f4_lm, row_fl, row_fib, row_of. cbn.
+    repeat (rewrite (pick_singleton pick _ Hp); cbn). reflexivity.
+  - vm_compute. discriminate.
+Qed.
+
+Lemma f4_metric : metric_w f4_w 3.
+Proof.
+  split; [|split].
+  - intros u Hu. destruct u as [|[|[|u]]]; try lia; reflexivity.
+  - intros u v Hu Hv. destruct u as [|[|[|u]]]; destruct v as [|[|[|v]]]; try lia;
+      vm_compute; discriminate.
+  - intros u v x Hu Hv Hx.
+    destruct u as [|[|[|u]]]; destruct v as [|[|[|v]]]; destruct x as [|[|[|x]]]; try lia;
+      vm_compute; discriminate.
+Qed.
+
+Lemma c04_hypotheses_satisfiable :
+    wf_graph f4_nbrs 3 1 /\ nonneg_w f4_nbrs f4_w /\ metric_w f4_w 3 /\
+    pick_ok pick_first_min /\ pick_ok pick_last_min /\
+    Forall (fun v => (v < 3)%nat) f4_lm /\ (length f4_lm <= 3)%nat /\
+    edge f4_nbrs 0 1 /\ (exists W, path f4_nbrs f4_w 0 2 W).
+Proof.
+  split; [exact f4_wf|]. split; [exact f4_nonneg|]. split; [exact f4_metric|].
+  split; [exact pick_first_min_ok|]. split; [exact pick_last_min_ok|].
+  split; [repeat constructor|]. split; [cbn; lia|]. split.
+  - exists [1%nat]. split; [reflexivity | left; reflexivity].
+  - exists (0 + f4_w 0 1 + f4_w 1 2), 2%nat.
+    econstructor; [econstructor; [constructor|]|].
+    + exists [1%nat]. split; [reflexivity | left; reflexivity].
+    + exists [2%nat]. split; [reflexivity | left; reflexivity].
+Qed.
